@@ -29,6 +29,7 @@ TECHNIQUE = ("static analysis: abstract interpretation of the readers' byte-offs
              "folding of the leaf rule, child offsets and vector assembly")
 
 from . import loader_folds as lfold
+from . import io_folds as iof
 from . import layout_folds as lay
 
 
@@ -83,7 +84,7 @@ def r9(run, tree):
 
 def r11(run, tree):
     run.rule("C01.R11", "vector assembly and derived variables", "D7 folding over name sets", "", floor=8)
-    io2.check_vector_assembly(run, tree)
+    iof.check_vector_assembly(run, tree)
     from .c13 import check_derived_variables
     check_derived_variables(run, tree)
 
